@@ -53,14 +53,18 @@ var IOErrors = map[string]error{
 
 var IOErrorNames = []string{"EOF", "ECONNRESET", "timeout", "EPIPE", "generic"}
 
+// Bystander: see Run.
+var Bystander bool
+
 // Env is what the oracle sees after the case has run and the system is quiescent.
 type Env struct {
 	St       *bubble.Stack
 	Victim   *bubble.Client
 	Baseline []string // SUT goroutines before the victim connected
 	Case     Case
-	Ops      int   // server-side I/O operations performed on the victim's connection
-	Bytes    int64 // bytes the victim's client put on the wire
+	Problem  string // set by Run: something another client saw go wrong while the case ran
+	Ops      int    // server-side I/O operations performed on the victim's connection
+	Bytes    int64  // bytes the victim's client put on the wire
 }
 
 // session drives the victim through a fixed scenario; every step tolerates a dead connection.
@@ -131,6 +135,24 @@ func Run(t *testing.T, cs Case, opts bubble.StackOpts, hello []byte, oracle func
 		synctest.Wait()
 		env := &Env{St: st, Case: cs, Baseline: bubble.SUT()}
 		var cl *bubble.Client
+		// Bystander (set by the check that wants it): another client's HTTP/2 connection has a request in flight - held at
+		// the backend - while the case runs, and is answered right after the victim's connection has failed: its response
+		// must arrive complete (buffers, writers or pools shared between connections would show here).
+		var by *bubble.Client
+		var byRelease chan struct{}
+		if Bystander && (cs.Kind == "iofault" || cs.Kind == "abort-close" || cs.Kind == "abort-reset" || cs.Kind == "abort-many") && cs.Proto != "plain" {
+			byRelease = make(chan struct{})
+			st.Backend.Hold = func(r *bubble.RecReq) {
+				if r.Path == "/bystander" {
+					<-byRelease
+				}
+			}
+			by = st.Connect("bystander", nil, HelloH2)
+			synctest.Wait()
+			by.StartH2()
+			by.SendH2(1, bubble.Req{Path: "/bystander", Host: "localhost"})
+			synctest.Wait()
+		}
 		switch cs.Kind {
 		case "abort-close", "abort-reset":
 			h := helloFor(cs.Proto)
@@ -213,6 +235,26 @@ func Run(t *testing.T, cs Case, opts bubble.StackOpts, hello []byte, oracle func
 			synctest.Wait()
 			cl.Raw.Deliver(cs.K)
 			synctest.Wait()
+		case "hello-fragmented":
+			// a legal way to send a ClientHello: the handshake message split over two TLS records, the first one carrying
+			// K bytes of it; then the ordinary session
+			h := helloFor(cs.Proto)
+			h.Filter = func(off int64, b []byte) []byte {
+				if off != 0 || len(b) < 6 || b[0] != 22 {
+					return b
+				}
+				n := int(b[3])<<8 | int(b[4])
+				if len(b) < 5+n || cs.K <= 0 || cs.K >= n {
+					return b
+				}
+				out := append([]byte{22, b[1], b[2], byte(cs.K >> 8), byte(cs.K)}, b[5:5+cs.K]...)
+				out = append(out, 22, b[1], b[2], byte((n-cs.K)>>8), byte(n-cs.K))
+				out = append(out, b[5+cs.K:]...)
+				return out
+			}
+			cl = st.Connect("victim", nil, h)
+			session(cl, cs.Proto, nil)
+			cl.Close()
 		case "stall-after-handshake":
 			// the TLS handshake completes, the client sends the first K bytes of what it owes next (the HTTP/2 connection
 			// preface, or an HTTP/1.1 request) and falls silent without disconnecting
@@ -439,6 +481,17 @@ func Run(t *testing.T, cs Case, opts bubble.StackOpts, hello []byte, oracle func
 			panic("unknown case kind " + cs.Kind)
 		}
 		synctest.Wait()
+		if by != nil {
+			close(byRelease)
+			synctest.Wait()
+			col := bubble.NewH2Collector()
+			col.Add(by.Dec, by.TakeFrames())
+			if r := col.Resps[1]; r == nil || !r.Ended || r.Status != "200" || string(r.Body) != "backend:/bystander" {
+				env.Problem = fmt.Sprintf("another client's request that was in flight during the case was not answered correctly afterwards: %+v (connection error: %v)", r, by.ReadErr())
+			}
+			by.Close()
+			synctest.Wait()
+		}
 		// let every armed timer fire (handshake timeout 10 s, http2 goaway/settings timers)
 		time.Sleep(40 * time.Second)
 		synctest.Wait()
